@@ -191,6 +191,22 @@ def r16_3(ctx, rep):
     rep.ob(R, SITE, "sign split off before the lookup", bool(strip) and w is None,
            "the alias's variable is looked up on a path that has not set `sign` / stripped the leading '-': a negative alias is then looked up "
            "under its signed name", path=cfg.describe(w) if w else "")
+    # ... and so does every other use of the alias's name (the `handled in an earlier pass` test asks the old relation about it: "-B" is never
+    # a canonical variable, B may be)
+    split_nodes = {id(x.ast) for x in strip} | {id(x.ast) for x in signs}
+    for x in cfg.nodes:
+        if x.ast is None or x.kind not in ("stmt", "test") or id(x.ast) in split_nodes or x.ast is inner:
+            continue
+        reads = [y for y in ast.walk(x.ast) if isinstance(y, ast.Name) and y.id == "alias" and isinstance(y.ctx, ast.Load)]
+        if not reads:
+            continue
+        if x.kind == "test" and any(isinstance(y, ast.Subscript) and is_name(y.value, "alias") and norm(y.slice) == "0" for y in ast.walk(x.ast)) \
+                and len(reads) == 1:
+            continue  # the sign test itself
+        w = cfg.path(it.id, x.id, avoid={s_.id for s_ in signs})
+        rep.ob(R, SITE, "sign split off before `%s`" % norm(x.ast)[:50], w is None,
+               "the alias's name is used here on a path that has not yet split off its sign: for a negative alias the question is asked about "
+               "`-name`, which no table of names contains", path=cfg.describe(w) if w else "")
     acc = _accumulators(outer, inner, cst)
     updates = {x.id for x in cfg.stmts() if isinstance(x.ast, (ast.Assign, ast.AugAssign)) and any(
         isinstance(t, ast.Name) and t.id in acc.values() for t in (x.ast.targets if isinstance(x.ast, ast.Assign) else [x.ast.target]))}
@@ -307,6 +323,17 @@ def r16_6(ctx, rep):
         rep.ob(R, SITE, "every merged alias reaches the %s update" % a, w is None,
                "after the alias's variable has been looked up an iteration can end without touching the %s accumulator and without a test on the alias's own "
                "%s: that alias's %s is lost" % (a, "/".join(fam[a]), a), path=cfg.describe(w) if w else "")
+
+
+@SPEC.rule(
+    "R16.7",
+    "`no start declared` survives vector expansion: the merge keeps an own start and otherwise takes the alias's — which it tells apart by "
+    "the marker class of the default start value. _expand_vectors hands attribute values that are not arrays to the scalar elements as "
+    "the objects they are (a conversion to a plain number makes every element's default look like an explicit start of 0)",
+)
+def r16_7(ctx, rep):
+    from .c18 import scalar_attributes_verbatim
+    scalar_attributes_verbatim(ctx, rep, "R16.7")
 
 
 # -- seeded variants ---------------------------------------------------------
